@@ -43,6 +43,27 @@ def run_case(job):
             case["dist_multi"] = [[int(k), int(round(float(v) * 1000))] for k, v in d2.items()]
     except Exception as e:  # noqa
         case["graph_exc"] = "%s:%s" % (type(e).__name__, str(e)[:60])
+    # a second multigraph with non-default include_* / respect_status_* arguments (seeded by the case)
+    import random
+    rnd = random.Random(job.get("k", 0) * 7 + 1)
+    KW = {"pipe": "pipes", "valve": "valves", "pump": "pumps", "press_control": "press_controls", "flow_control": "flow_controls",
+          "heat_consumer": "heat_consumers", "heat_exchanger": "heat_exchangers", "circ_pump_mass": "mass_circ_pumps",
+          "circ_pump_pressure": "pressure_circ_pumps"}
+    present = sorted({e["tbl"] for e in job["an"]["E"]} & set(KW))
+    excl = sorted(t for t in present if rnd.random() < 0.25)
+    nrs = sorted(t for t in present if rnd.random() < 0.35)
+    rsj = rnd.random() < 0.7
+    kw = {"include_%s" % KW[t]: False for t in excl}
+    kw.update({"respect_status_%s" % KW[t]: False for t in nrs})
+    case["flags"] = {"excl": excl, "nrs": nrs, "rsj": rsj}
+    case["fgraph"], case["fgraph_exc"] = {"nodes": [], "edges": []}, ""
+    try:
+        fg = top.create_nxgraph(net, multi=True, respect_status_junctions=rsj, **kw)
+        case["fgraph"]["nodes"] = [int(n) for n in fg.nodes()]
+        for u, v, key, data in fg.edges(keys=True, data=True):
+            case["fgraph"]["edges"].append({"u": int(u), "v": int(v), "tbl": str(key[0]), "lab": int(key[1])})
+    except Exception as e:  # noqa
+        case["fgraph_exc"] = "%s:%s" % (type(e).__name__, str(e)[:60])
     outcome = pf.run_pipeflow(net, dict(c04.PF_OPTS))
     case["outcome"] = outcome
     an = netio.project(net)
@@ -106,8 +127,8 @@ def main():
            "rule": "distinct nets emitted by TLC from the connectivity model (consistent junction flags); non-trivial = graph with >= 2 edges"}
     rc = V.finish()
     core.write_evidence("C18", "model_checking", cov, time.time() - t0, len(V.violations),
-                        assumptions=["default arguments of create_nxgraph / unsupplied_junctions (multigraph and simple graph); include_* / respect_status_* "
-                                     "combinations other than the defaults are not enumerated yet",
+                        assumptions=["per net one seeded random combination of include_* / respect_status_* / respect_status_junctions arguments (multigraph) "
+                                     "in addition to the defaults; weighting_* arguments other than pipe length are not exercised",
                                      "graph-vs-solver clause only on component mixes without active flow controllers, heat consumers and pressure "
                                      "controllers (where the two notions are not meant to coincide)"])
     print("C18 %s: model states=%d, nets=%d (in graph-vs-solver scope %d), violations=%d, known=%d, %.0fs"
